@@ -246,11 +246,14 @@ func (conn *Conn) send(call *Call) {
 	conn.mutex.Unlock()
 	ctx := Context{}
 	ctx.Seq = seq
-	ctx.upgrade = call.upgrade
+	// a private copy: once the call is registered the reader may complete it and
+	// recycle its upgrade flags (putUpgrade) before the request has been written
+	flags := *call.upgrade
+	ctx.upgrade = &flags
 	var upgradeBuffer []byte
-	if !call.upgrade.IsZero() {
+	if !flags.IsZero() {
 		upgradeBuffer = getUpgradeBuffer()
-		ctx.Upgrade, _ = call.upgrade.Marshal(upgradeBuffer)
+		ctx.Upgrade, _ = flags.Marshal(upgradeBuffer)
 	}
 	ctx.ServiceMethod = call.ServiceMethod
 	err := conn.codec.WriteRequest(&ctx, call.Args)
